@@ -59,7 +59,7 @@ def oracle_scan(casefile, limit=40, per_op=8):
         msg = spec_c15.check(op, args, res)
         if msg is not None:
             nfail[op] = nfail.get(op, 0) + 1
-        if msg is not None and len(fails) < limit and nfail[op] <= per_op:
+        if msg is not None and keep_failure(fails, msg):
             fails.append({"line": lineno, "op": op, "args": args if len(args) <= 80 else args[:80] + ["..."],
                           "impl": res if len(res) <= 80 else res[:80] + ["..."], "why": msg})
     return n, fails, dist, panics
